@@ -1,1 +1,159 @@
-/-! C02 — property theorems (stub; no obligations yet) -/
+import Ypv.Lemmas.Doc
+/-!
+# C02 — every result locates its node
+
+Proved: for a well-formed document every real result of a query (and every member of a virtual
+slice result) is a *located node* (`results_located`): its address resolves to the very node, the
+reported parent address resolves to a node in which the reported parentref designates the last step
+(`coords_sound`), the ancestry is the chain of (prefix, reference) pairs from the root, each
+reference designating the next step inside the node the prefix resolves to (`ancestry_is_chain`),
+and parent / parentref / ancestry / path sections have the chain structure of `coords_chain`.
+
+NOT proved (`path_reresolves`, PARTIAL): that the reported path *text* re-parses (parser model, with
+`escape_path_section` quoting) to segments that select exactly the address.  Full statement:
+  theorem path_reresolves : Loc d n c → select mt dsc (parse (dotted c.path)) (d, root) = [(n, c)]
+    (or every sibling bearing the anchor when the last section is `[&name]`)
+Missing: the composition with the parser lemmas `parse_escapeSection` (C08, another builder).  It is
+checked on the real code for every generated result (re-query through the real parser and
+Processor, keys over the whole escapable punctuation set) by `harness/props/c02.py`.
+-/
+namespace Ypv.C02
+open Ypv Ypv.Eval Gen
+
+/-- Coordinates reachable from `c0` by child steps. -/
+inductive From (c0 : Ctx) : Ctx → Prop
+  | start : From c0 c0
+  | child {c : Ctx} (r : Ref) (pr : PRef) (sec : Str) : From c0 c → From c0 (c.child r pr sec)
+
+/-- Proper prefixes of an address, shortest first. -/
+def prefixes : Addr → List Addr
+  | [] => []
+  | r :: rs => [] :: (prefixes rs).map (r :: ·)
+
+theorem prefixes_append (a : Addr) (r : Ref) : prefixes (a ++ [r]) = prefixes a ++ [a] := by
+  induction a with
+  | nil => rfl
+  | cons x xs ih => simp [prefixes, ih]
+
+/-- **Chain structure of coordinates built from the root**: `parent` is the address without its last
+reference, the ancestry lists exactly the proper prefixes of the address in order, `parentref` is
+the reference recorded by the last ancestry entry, and the path has one section per reference. -/
+theorem coords_chain (c : Ctx) (h : From Ctx.root c) :
+    c.anc.map (·.1) = prefixes c.addr
+    ∧ c.parent = (c.anc.getLast?).map (·.1)
+    ∧ c.pref = (c.anc.getLast?).map (·.2)
+    ∧ (c.addr = [] ↔ c.parent = none)
+    ∧ (∀ p, c.parent = some p → p = c.addr.dropLast)
+    ∧ c.path.length = c.addr.length := by
+  induction h with
+  | start => simp [Ctx.root, prefixes]
+  | child r pr sec _ ih =>
+    obtain ⟨h1, _, _, _, _, h6⟩ := ih
+    simp [Ctx.child, prefixes_append, h1, h6]
+
+/-- The coordinates the evaluator hands to the children of a node (`*`, and every handler that
+enumerates members) are child steps of the node's coordinates. -/
+theorem kids_coords_chain (c0 : Ctx) (n : Node) (c : Ctx) (h : From c0 c) : ∀ x ∈ kids n c, From c0 x.2 := by
+  have hs : ∀ (items : List Node) (i : Nat), ∀ x ∈ seqKidsFrom c items i, From c0 x.2 := by
+    intro items
+    induction items with
+    | nil => intro i x hx; simp [seqKidsFrom] at hx
+    | cons m ms ih =>
+      intro i x hx
+      simp only [seqKidsFrom, List.mem_cons] at hx
+      cases hx with
+      | inl hx => subst hx; exact From.child _ _ _ h
+      | inr hx => exact ih (i + 1) x hx
+  intro x hx
+  cases n with
+  | scalar a v => simp [kids] at hx
+  | seq a items => exact hs items 0 x hx
+  | map a es =>
+    simp only [kids, mapKids, List.mem_map] at hx
+    obtain ⟨kv, _, rfl⟩ := hx
+    exact From.child _ _ _ h
+  | set a ms =>
+    simp only [kids, setKids, List.mem_map] at hx
+    obtain ⟨k, _, rfl⟩ := hx
+    exact From.child _ _ _ h
+
+theorem Loc.from {d n : Node} {c : Ctx} (h : Loc d n c) : From Ctx.root c := by
+  induction h with
+  | root => exact From.start
+  | child r pr sec m _ _ _ ih => exact From.child r pr sec ih
+
+variable {mt : Matcher} {dsc : Desc}
+
+/-- **Every result locates its node.**  For a well-formed document `d` (distinct keys), every real
+result `(n, c)` of `_get_required_nodes` from the root — and every member of a virtual slice result —
+is a *located node*: its coordinates were built from the root by steps each leading from the parent
+node to the child node under the reported reference. -/
+theorem results_located {d : Node} (hd : d.WF) (segs : List ESeg) :
+    ∀ r ∈ (required mt dsc segs (.real (d, Ctx.root))).1, ResLoc d r :=
+  allResLoc_required hd segs (.real (d, Ctx.root)) Loc.root
+
+/-- **coords_sound**: the address of a located node resolves to that very node; it is the root
+(no parent, no reference), or its reported parent address resolves to a node `P` in which the
+reported `parentref` designates (Python indexing for lists, key lookup for dicts, membership for
+sets) exactly the last step of the address, and that step leads from `P` to the node. -/
+theorem coords_sound {d n : Node} {c : Ctx} (h : Loc d n c) :
+    d.get? c.addr = some n ∧
+    ((c.addr = [] ∧ c.parent = none ∧ c.pref = none ∧ n = d) ∨
+     (∃ p r pr P, c.addr = p ++ [r] ∧ c.parent = some p ∧ c.pref = some pr ∧ d.get? p = some P
+        ∧ prefOk P pr r ∧ P.child? r = some n)) := by
+  refine ⟨h.get, ?_⟩
+  cases h with
+  | root => left; simp [Ctx.root]
+  | child r pr sec m hl hc hp =>
+    right
+    exact ⟨_, r, pr, _, rfl, rfl, rfl, hl.get, hp, hc⟩
+
+/-- **ancestry_is_chain**: the ancestry of a located node has one entry per step of its address; the
+`i`-th entry names the prefix of length `i` of the address, which resolves to a node in which the
+recorded reference designates the `i`-th step. -/
+theorem ancestry_is_chain {d n : Node} {c : Ctx} (h : Loc d n c) :
+    c.anc.length = c.addr.length ∧
+    ∀ i (hi : i < c.addr.length), ∃ P pr, c.anc[i]? = some (c.addr.take i, pr)
+      ∧ d.get? (c.addr.take i) = some P ∧ prefOk P pr c.addr[i] := by
+  induction h with
+  | root => simp [Ctx.root]
+  | @child n0 c0 r pr sec m hl hc hp ih =>
+    obtain ⟨hlen, hall⟩ := ih
+    refine ⟨by simp [Ctx.child, hlen], ?_⟩
+    intro i hi
+    simp only [Ctx.child, List.length_append, List.length_cons, List.length_nil] at hi
+    by_cases hlt : i < c0.addr.length
+    · obtain ⟨P, pr', h1, h2, h3⟩ := hall i hlt
+      refine ⟨P, pr', ?_, ?_, ?_⟩
+      · simp only [Ctx.child]
+        rw [List.getElem?_append_left (by omega), List.take_append_of_le_length (by omega)]
+        exact h1
+      · simp only [Ctx.child]
+        rw [List.take_append_of_le_length (by omega)]
+        exact h2
+      · simp only [Ctx.child]
+        rw [List.getElem_append_left hlt]
+        exact h3
+    · have hi' : i = c0.addr.length := by omega
+      subst hi'
+      refine ⟨n0, pr, ?_, ?_, ?_⟩
+      · simp only [Ctx.child]
+        rw [List.getElem?_append_right (by omega)]
+        simp [hlen]
+      · simp only [Ctx.child]
+        simp [hl.get]
+      · simp only [Ctx.child]
+        simp [hp]
+
+/-- The chain facts for the results of a query. -/
+theorem required_coords_chain {d : Node} (hd : d.WF) (segs : List ESeg) (n : Node) (c : Ctx)
+    (h : Res.real (n, c) ∈ (required mt dsc segs (.real (d, Ctx.root))).1) : From Ctx.root c :=
+  Loc.from (results_located (mt := mt) (dsc := dsc) hd segs _ h)
+
+example : From Ctx.root (Ctx.root.child (.key (.str ['a'])) (.key (.str ['a'])) ['a']) := From.child _ _ _ From.start
+
+/-- The hypotheses are met: a well-formed document and a located result at depth 2. -/
+example : (Node.map none [(.str ['a'], .seq none [.scalar none (.int 1)])]).WF := by
+  simp [Node.WF, WFEntries, WFList]
+
+end Ypv.C02
